@@ -50,17 +50,17 @@ var stubCommon = []string{"user components, post-processors, runners, closers, l
 func props() map[string]*propCfg {
 	wire := []famShare{{gen.FamWire, 1}}
 	m := map[string]*propCfg{
-		"C01": {ID: "C01", Engine: "startsim", Level: "exploration", Families: []famShare{{gen.FamWire, 0.5}, {gen.FamSubst, 0.5}}, QProgs: 320, QK: 8, TProgs: 480, TK: 48,
+		"C01": {ID: "C01", Engine: "startsim", Level: "exploration", Families: []famShare{{gen.FamWire, 0.5}, {gen.FamSubst, 0.5}}, QProgs: 480, QK: 8, TProgs: 480, TK: 48,
 			Rule: "programs are generated from VERIF_SEED (dependency graphs with fan-in, cycles, slices, by-name/qualified edges; half of them with substituting post-processors); each is started under K schedules (canonical, reversed, random registration order x registry enumeration orders x property-group order x scan-phase interleaving). A run is non-trivial if some object is held by >= 2 points or an early reference was produced (a cycle was entered); distinct = distinct (program shape, registry path signature) pairs among those."},
-		"C02": {ID: "C02", Engine: "startsim", Level: "exploration", Families: []famShare{{gen.FamWire, 0.8}, {gen.FamSubst, 0.2}}, QProgs: 400, QK: 8, TProgs: 480, TK: 48,
+		"C02": {ID: "C02", Engine: "startsim", Level: "exploration", Families: []famShare{{gen.FamWire, 0.8}, {gen.FamSubst, 0.2}}, QProgs: 560, QK: 8, TProgs: 480, TK: 48,
 			Rule: "generated dependency graphs without substitution (structured corpora first: all digraphs over <= 3 pointer-wired components, ring rotations; then random graphs); K schedules each. Non-trivial = an early reference was produced (a cycle was entered) or the program has a point whose only candidate is its holder; distinct = distinct (program shape, registry path signature)."},
-		"C06": {ID: "C06", Engine: "startsim", Level: "exploration", Families: []famShare{{gen.FamWire, 0.8}, {gen.FamEmbed, 0.12}, {gen.FamWrapName, 0.08}}, QProgs: 400, QK: 8, TProgs: 480, TK: 48,
+		"C06": {ID: "C06", Engine: "startsim", Level: "exploration", Families: []famShare{{gen.FamWire, 0.8}, {gen.FamEmbed, 0.12}, {gen.FamWrapName, 0.08}}, QProgs: 560, QK: 8, TProgs: 480, TK: 48,
 			Rule: "generated provider/consumer populations; K schedules each; non-trivial = some point has >= 2 compatible candidates; distinct = distinct (program shape, registry path signature)."},
-		"C07": {ID: "C07", Engine: "startsim", Level: "exploration", Families: []famShare{{gen.FamByName, 0.55}, {gen.FamWire, 0.35}, {gen.FamWrapName, 0.1}}, QProgs: 400, QK: 8, TProgs: 480, TK: 48,
+		"C07": {ID: "C07", Engine: "startsim", Level: "exploration", Families: []famShare{{gen.FamByName, 0.55}, {gen.FamWire, 0.35}, {gen.FamWrapName, 0.1}}, QProgs: 560, QK: 8, TProgs: 480, TK: 48,
 			Rule: "generated programs with by-name points (custom names, default names, absent names, names of incompatible type, optional and required, rare duplicate registrations); K schedules each; non-trivial = the program has a by-name point; distinct = distinct (program shape, registry path signature)."},
-		"C08": {ID: "C08", Engine: "startsim", Level: "exploration", Families: wire, QProgs: 400, QK: 8, TProgs: 480, TK: 48,
+		"C08": {ID: "C08", Engine: "startsim", Level: "exploration", Families: wire, QProgs: 520, QK: 8, TProgs: 480, TK: 48,
 			Rule: "generated populations with qualifier / Primary / naming attributes and holders mixing qualified, unqualified, optional and required points; K schedules each; non-trivial = some point has >= 2 candidates; distinct = distinct (program shape, registry path signature)."},
-		"C10": {ID: "C10", Engine: "startsim", Level: "exploration", Families: []famShare{{gen.FamWire, 0.5}, {gen.FamByName, 0.2}, {gen.FamSubst, 0.3}}, QProgs: 320, QK: 10, TProgs: 480, TK: 48,
+		"C10": {ID: "C10", Engine: "startsim", Level: "exploration", Families: []famShare{{gen.FamWire, 0.5}, {gen.FamByName, 0.2}, {gen.FamSubst, 0.3}}, QProgs: 480, QK: 10, TProgs: 480, TK: 48,
 			Rule: "each generated program is started under K schedules and the outcomes / wirings are compared across the sweep (metamorphic); non-trivial = some point has >= 2 candidates; distinct = distinct (program shape, registry path signature)."},
 	}
 	for _, p := range m {
